@@ -12,8 +12,7 @@ from pyvc.engine import fresh_name
 
 TH = 'proxy/core/work/threadless.py'
 FD = 'proxy/core/work/fd/fd.py'
-ASSUMPTIONS = ['E-SEL: selector.unregister does not raise for descriptors recorded in registered_events_by_work_ids '
-               '(executor invariant J; broken only by known finding F11)',
+ASSUMPTIONS = ['E-SEL: selector.unregister raises at most KeyError (a key it already dropped after a failed modify)',
                'asyncio task scheduling (_create_tasks/_wait_for_tasks/_run_once) is outside the accepted subset: '
                '_run_once is covered by a bounded native fault-injection check, not by proof']
 
@@ -36,7 +35,7 @@ def tables(reg):
                  params={'event_name': 'int', 'event_payload': ('opaque', 'dictliteral'), 'publisher_id': 'str'},
                  raises={})
     reg.contract('<env>', 'Selector.unregister', params={'fd': 'int'}, self_cls='Selector', assumed=True,
-                 modifies=[], raises={}, note='E-SEL')
+                 modifies=[], raises={'KeyError': []}, note='E-SEL: at worst KeyError (a key the selector already dropped)')
     reg.contract('<env>', 'EvMap.clear', self_cls='EvMap', assumed=True, modifies=[], raises={})
     reg.contract(TH, 'Threadless.work_queue_fileno', self_cls='Threadless', assumed=True, modifies=[],
                  result=('opt', 'int'), ensures=['result == self.wq'], raises={},
@@ -100,4 +99,30 @@ def build(reg):
         modifies=['self.works', 'self.registered_events_by_work_ids', 'self._total'],
         ensures=[('isolation-frame', "all_int('k', k != args[0] ==> self.works.has(k) == old(self.works).has(k))")],
         raises={}))
+    # ---- the per-work event refresh: whatever one work's get_events / the selector do, nothing escapes and
+    #      every work whose refresh failed is cleaned up (and only those)
+    reg.specfuns['Task_attr__work_id'] = SpecFun('Task_attr__work_id', [('opaque', 'Task')], 'int')
+    th = dict(reg.classes['Threadless']['fields'])
+    th['unfinished'] = ('list', ('opaque', 'Task'))
+    reg.klass('Threadless', py='proxy.core.work.fd.fd:ThreadlessFdExecutor', fields=th, ghost={'wq': ('opt', 'int')})
+    reg.contract(TH, 'Threadless._update_work_events', params={'work_id': 'int'}, self_cls='Threadless', assumed=True,
+                 modifies=['self.registered_events_by_work_ids'], raise_modifies=['self.registered_events_by_work_ids'],
+                 ghost_init={'refresh_failed': ('seq', 'int')},
+                 ensures=[('ok', 'refresh_failed == old(refresh_failed)'),
+                          ('registry-keys', "all_int('k', k != work_id ==> self.registered_events_by_work_ids.has(k) == old(self.registered_events_by_work_ids).has(k))"),
+                          ('selector-needed', 'True')],
+                 raises={'Exception': [('logged', 'refresh_failed == old(refresh_failed) + [work_id]'),
+                                       ('registry-keys', "all_int('k', k != work_id ==> self.registered_events_by_work_ids.has(k) == old(self.registered_events_by_work_ids).has(k))")]},
+                 note='adversarial: get_events() of the work and the selector calls may raise anything (its own no-KeyError guard: source)')
+    reg.contract(TH, 'Threadless._update_conn_pool_events', self_cls='Threadless', assumed=True, modifies=[], raises={},
+                 note='connection-pool descriptors: not part of a single work (pool disabled by default)')
+    T.append(reg.contract(
+        TH, 'Threadless._update_selector', self_cls='Threadless', ghost_init={'refresh_failed': ('seq', 'int'), 'closed_fds': ('seq', 'int')},
+        requires=[('selector', 'not isnone(self.selector)'), ('bounded', 'len(self.works) <= 2')],
+        modifies=['self.works', 'self.registered_events_by_work_ids'],
+        ensures=[('only-failing-works-are-dropped',
+                  "all_int('k', (old(self.works).has(k) and not contains(refresh_failed[len(old(refresh_failed)):], k)) ==> self.works.has(k))"),
+                 ('failing-works-are-dropped', "all_int('k', contains(refresh_failed[len(old(refresh_failed)):], k) ==> not self.works.has(k))")],
+        raises={},
+        loops={0: LoopSpec(unroll=1), 1: LoopSpec(unroll=2), 2: LoopSpec(unroll=2)}))
     return T
